@@ -256,6 +256,34 @@ def _helpers_roundtrip(s, labels):
             raise Violation("expand-collapse", f"cisco expand(collapse({sorted(s)}), tiny_ranges={tiny}) = {sorted(back)}", {})
 
 
+def _device_mode(hw, old, new, det_rows=None):
+    """device front end; the patch is computed a second time with an ACL that covers every line (production always passes the
+    generators' ACL): an all-covering ACL must not change a single command"""
+    import copy
+    from annet.annlib.rbparser.acl import compile_acl_text
+    from annet.api import _diff_and_patch
+    from vf.core.runner import Violation
+    from vf.model import sut
+    d, pt = _diff_and_patch(sut.Dev(hw), copy.deepcopy(old), copy.deepcopy(new), None, None, False)
+    vendor = sut.registry().match(hw).NAME
+    acl = compile_acl_text("~ %global=1\n", vendor)
+    d2, pt2 = _diff_and_patch(sut.Dev(hw), copy.deepcopy(old), copy.deepcopy(new), acl, None, False)
+    fmt = sut.registry().match(hw).make_formatter(indent="")
+    p1, p2 = list(fmt.cmd_paths(pt).keys()), list(fmt.cmd_paths(pt2).keys())
+    if p1 != p2:
+        raise Violation("acl-changes-patch", "with an ACL that covers every line the commands are %r, without an ACL %r (old rows %r, new rows %r)"
+                        % (p2, p1, _rows(old), _rows(new)), {"with_acl": [list(p) for p in p2], "without_acl": [list(p) for p in p1]})
+    return d, pt
+
+
+def _rows(t, pre=()):
+    out = []
+    for k, v in t.items():
+        out.append(list(pre + (k,)))
+        out += _rows(v, pre + (k,))
+    return out
+
+
 def _check_global(case):
     """VRP semantics: 'vlan batch L' creates, 'undo vlan batch L' deletes, 'vlan N' (block header) creates N, 'undo vlan N' deletes N
     everywhere (also from the batch list)."""
@@ -280,7 +308,7 @@ def _check_global(case):
     old, new = tree(case["old"]), tree(case["new"])
     s_old, s_new = vset(case["old"]), vset(case["new"])
     if case["mode"] == "device":
-        d, pt = _diff_and_patch(sut.Dev(hw), old, new, None, None, False)
+        d, pt = _device_mode(hw, old, new)
     else:
         _, d, _, pt = _read_old_new_diff_patch(old, new, hw, False)
     paths = list(sut.registry().match(hw).make_formatter(indent="").cmd_paths(pt).keys())
@@ -356,7 +384,7 @@ def check(case):
                 new[holder]["channel-group 1 mode active"] = odict()
         holders.append(holder)
     if mode == "device":
-        d, pt = _diff_and_patch(sut.Dev(hw), old, new, None, None, False)
+        d, pt = _device_mode(hw, old, new)
     else:
         _, d, _, pt = _read_old_new_diff_patch(old, new, hw, False)
     paths = list(sut.registry().match(hw).make_formatter(indent="").cmd_paths(pt).keys())
